@@ -3,24 +3,30 @@
 PROVE  coq/Properties/C20.v over Model/AdminJobs.v (decision logic of create_branch, delete_branch, delete_queues,
        rebuild_queues and the guard of force_merge_queues as pure functions over a repository view: heads, tags,
        commit DAG of Model/Git.v, the QueueCollection view) against Spec/C20Spec.v.
-GEN    Facts_C20.v: the archive-tag suffix of hotfix branches (as delete_branch writes it and as create_branch
-       looks for it), the ".0" start tag suffix, the 'stabilization/%s', 'q/%s', 'development/%s.%s' formats, the
-       formats of queue_destination, whether delete_branch also compares stabilization branches by number, the
-       "q/" prefixes of the queue jobs, the table of raise sites of the five handlers (exception class per
-       `raise`, in source order) read from the AST; the kinds of the four outcome classes read from the live
-       classes; the two API regex literals (tripwires, probed against a regex-free grammar on every run).
+GEN    Facts_C20.v, observed on the running jobs (harness/lib/probe_c20.py: three small sysworld worlds, about a
+       hundred real jobs, each built so that one thing decides): the tag a successful delete-branch leaves for a
+       development / stabilization / hotfix branch (archive suffix), the start tag create-branch takes a hotfix
+       branch from and the archive tag that makes it refuse (candidates and decoys, one at a time), the development
+       branch a stabilization branch is taken from, the prefix-or-numbers guard of delete-branch (the only candidate
+       that explains the refusal grid over the names of another remote branch), the queue name delete-branch looks
+       for, which branches the queue jobs remove among q/* and decoys and which branch they leave checked out
+       (hotfix / stabilization / development queue first), whether non-canonical spellings are refused, and the
+       exception class of every exit the model names (the raise-site table of CORR comes from the same probes);
+       one exit is dead code and is read from the raise statements no probe reached (AST of the handler and of the
+       helpers it calls, found through the dispatcher); the kinds of the four outcome classes from the live
+       classes; the two API regular expressions as the endpoint applies them to sentinel names (tripwires, probed
+       against a regex-free grammar on every run).
 CORR   system level (harness/lib/sysworld.py: mock host + real git): for cascades of a small family x every
        request the API grammar accepts relative to the existing branches x branch_from x queues on/off x 0-2
        queued pull requests, the real job is run and compared with the extracted model: outcome class, the
-       raise site (ordinal of the `raise` statement that ended the job, captured by a patched JobFailure
-       constructor - never message text), the remote operations in order, refs and tags afterwards (commit
+       raise site (which exit of the handler ended the job: traceback frames inside the admin-job modules looked up
+       in the table of exits the probes of GEN observed - never message text, never source positions as such), the remote operations in order, refs and tags afterwards (commit
        identity through the sha <-> cid table of the scenario) and the pending jobs.
 Monitors (harness/lib/mon_c20.py), independent of the model: inclusion and cascade rules on the real remote
        after a successful create (real BranchCascade on a fresh clone included), archive tag / queued data /
        live stabilization after a successful delete, remote untouched after a refusal, only q/* removed and the
        queued pull requests re-submitted in queue order by the queue jobs.
 """
-import ast
 import glob
 import json
 import os
@@ -48,57 +54,22 @@ ASSUMPTIONS = [
 TRUSTED = ['modelled by hand: Model/AdminJobs.v (order of the checks of the five handlers, BranchCascade '
            'build/validate restricted to what the admin jobs use, queued_prs / has_version_queued_prs); '
            'Model/Names.v (C18) for name classification; Model/Git.v for ancestry',
-           'harness/lib/mon_c20.py re-implements the property monitors in Python over real git']
+           'harness/lib/mon_c20.py re-implements the property monitors in Python over real git',
+           'harness/lib/probe_c20.py: the scenarios that give a name to every exit of the handlers (raise-site table '
+           'of CORR) and the candidate / decoy sets the generated facts are selected from']
 
-HANDLERS = [('create_branch', 'bert_e/jobs/create_branch.py', ['create_branch']),
-            ('delete_branch', 'bert_e/jobs/delete_branch.py', ['do_delete', 'delete_branch']),
-            ('delete_queues', 'bert_e/jobs/delete_queues.py', ['delete_queues']),
-            ('rebuild_queues', 'bert_e/jobs/rebuild_queues.py', ['rebuild_queues']),
-            ('force_merge_queues', 'bert_e/jobs/force_merge_queues.py', ['force_merge_queues'])]
+# exits of the five handlers the model names, in the numbering of Model/AdminJobs.v (site_create, site_delete;
+# queue jobs: queues disabled / no queue branch / queues removed); the numbering is the order of the `raise`
+# statements in the source the model was written against - it is only a naming: which statement of the tree under
+# test is which exit is *observed* (lib/probe_c20.py)
+SITE_COUNT = [('create_branch', 10), ('delete_branch', 9), ('delete_queues', 3), ('rebuild_queues', 3),
+              ('force_merge_queues', 1)]
+# exits no live job reaches: create_branch:8 is the `except CommandError` around push(), dead code (a failed push
+# raises PushFailedException) - its exception class is read from the raise statements no probe reached
+UNREACHED = {'create_branch': [8]}
 
 
 # ------------------------------------------------------------------------------------------ GEN
-
-def _funcs(tree, names):
-    out = []
-    for node in tree.body:
-        if isinstance(node, ast.FunctionDef) and node.name in names:
-            out.append(node)
-    if sorted(f.name for f in out) != sorted(names):
-        raise ValueError('functions %s not found' % names)
-    return sorted(out, key=lambda f: f.lineno)
-
-
-def _raise_class(node):
-    exc = node.exc
-    if exc is None:
-        raise ValueError('bare raise in a handler')
-    call = exc.func if isinstance(exc, ast.Call) else exc
-    if isinstance(call, ast.Attribute):
-        return call.attr
-    if isinstance(call, ast.Name):
-        return call.id
-    raise ValueError('unexpected raise: ' + ast.dump(node)[:100])
-
-
-def raise_sites(repo=None):
-    """handler -> [(lineno, exception class)] in source order (the ordinal of a site is its index)."""
-    repo = repo or core.REPO
-    res = {}
-    for key, rel, fnames in HANDLERS:
-        tree = ast.parse(open(os.path.join(repo, rel)).read())
-        sites = []
-        for fn in _funcs(tree, fnames):
-            for node in ast.walk(fn):
-                if isinstance(node, ast.Raise):
-                    sites.append((node.lineno, _raise_class(node)))
-        res[key] = sorted(sites)
-    return res
-
-
-def _str_consts(fn):
-    return [n.value for n in ast.walk(fn) if isinstance(n, ast.Constant) and isinstance(n.value, str)]
-
 
 def _one(cands, what):
     cands = sorted(set(cands))
@@ -107,86 +78,230 @@ def _one(cands, what):
     return cands[0]
 
 
-def gen_facts(ctx):
-    src = {k: open(os.path.join(core.REPO, rel)).read() for k, rel, _ in HANDLERS}
-    trees = {k: ast.parse(s) for k, s in src.items()}
-    create = _funcs(trees['create_branch'], ['create_branch'])[0]
-    delete = _funcs(trees['delete_branch'], ['delete_branch'])[0]
-    rebuild = _funcs(trees['rebuild_queues'], ['rebuild_queues'])[0]
-    delq = _funcs(trees['delete_queues'], ['delete_queues'])[0]
-    # archive tag of a hotfix branch: archive_tag = archive_tag + '<suffix>'
+_PROBES = {}
+
+
+def probes():
+    """The observations of lib/probe_c20.py on the tree under test (once per process; workers forked after GEN
+    inherit them)."""
+    if core.REPO not in _PROBES:
+        from lib import probe_c20
+        _PROBES[core.REPO] = probe_c20.run_probes(parallel=True)
+    return _PROBES[core.REPO]
+
+
+_TABLE = {}
+
+
+def site_table():
+    if core.REPO not in _TABLE:
+        from lib import probe_c20
+        # built from whatever the probes observed: when some probe failed GEN has failed closed already, and an exit
+        # the table does not know is a correspondence mismatch - the monitors still run on every job
+        _TABLE[core.REPO] = probe_c20.SiteTable(probes()['sites'])
+    return _TABLE[core.REPO]
+
+
+def _numeric_stab(name, major, minor):
+    """A stabilization/<major>.<minor>.<micro> name, numbers compared as numbers (no regular expression)."""
+    head = 'stabilization/'
+    if not name.startswith(head):
+        return False
+    parts = name[len(head):].split('.')
+    return len(parts) == 3 and all(_num(x) for x in parts) and int(parts[0]) == major and int(parts[1]) == minor
+
+
+def _stab_guard(grid):
+    """(head, numeric) of the live-stabilization guard of delete-branch: the only candidate
+    `name.startswith(head + version) or (numeric and name is a stabilization branch of the same numbers)` that
+    explains which other branch names made the deletion of development/4.3 refused."""
+    if any(v not in (True, False) for _, v in grid):
+        raise ValueError('delete-branch neither refused nor succeeded on the stabilization grid: %r' % (grid,))
+    heads = ['stabilization/', 'stabilization', 'stabilization/0', 'stabilization/4', 'stab', 'stabilisation/',
+             'xstabilization/', 'feature/stabilization/', 'hotfix/', '', None]
+    fits = []
+    for h in heads:
+        for numeric in (False, True):
+            pred = [(h is not None and x.startswith(h + '4.3')) or (numeric and _numeric_stab(x, 4, 3))
+                    for x, _ in grid]
+            if pred == [v for _, v in grid]:
+                fits.append((h, numeric))
+    if len(fits) != 1 or fits[0][0] is None:
+        raise ValueError('live-stabilization guard of delete-branch: candidates that explain the grid: %r (grid %r)'
+                         % (fits, grid))
+    return fits[0]
+
+
+def _queue_prefix(before, removed, created, what):
+    if created:
+        raise ValueError('%s created branches: %r' % (what, created))
+    cands = ['q/', 'q', 'q/w/', 'q/w', 'q/4', 'queue/', 'Q/', '']
+    fits = [c for c in cands if sorted(n for n in before if n.startswith(c)) == sorted(removed)]
+    if len(fits) != 1:
+        raise ValueError('%s: prefixes that explain the removed branches %r: %r' % (what, removed, fits))
+    return fits[0]
+
+
+def _destination_format(qname, dest):
+    """'hotfix/%d.%d.%d' / 'stabilization/%s' / 'development/%s': %s stands for the version text of the queue
+    branch, %d.%d.%d for its first three numbers (a hotfix queue has a fourth)."""
+    qv = qname.split('/', 1)[1]
+    if dest is None:
+        raise ValueError('no branch checked out after the queue job on %s' % qname)
+    if dest.endswith('/' + qv):
+        return dest[:-len(qv)] + '%s'
+    parts = qv.split('.')
+    if len(parts) == 4 and dest.endswith('/' + '.'.join(parts[:3])):
+        return dest[:-len('.'.join(parts[:3]))] + '%d.%d.%d'
+    raise ValueError('queue job on %s left %s checked out' % (qname, dest))
+
+
+def derive_facts(pr):
+    """Observations -> the data of Facts_C20.v.  Raises when something cannot be established (fail closed)."""
+    from lib import probe_c20
+    if pr['errors']:
+        raise ValueError('probes failed:\n' + '\n'.join(pr['errors']))
+    nq = dict(pr['obs']['noqueue_create'], **pr['obs']['noqueue_delete'])
+    qu = dict(pr['obs']['hotfix_tags'], **pr['obs']['queued'])
+    de = pr['obs']['destinations']
+    for grp, keys in ((nq, ('archive', 'stab_grid', 'canonical', 'supporting', 'create_archive_plain')),
+                      (qu, ('archive', 'hotfix_start', 'q_checkouts', 'queue_scan')), (de, ('queue_dest',))):
+        for k in keys:
+            if k not in grp:
+                raise ValueError('probe observation %r missing' % k)
+    f = {}
+    # ---- archive tags left by delete-branch
     sufs = []
-    for n in ast.walk(delete):
-        if (isinstance(n, ast.Assign) and len(n.targets) == 1 and getattr(n.targets[0], 'id', '') == 'archive_tag'
-                and isinstance(n.value, ast.BinOp) and isinstance(n.value.op, ast.Add)
-                and getattr(n.value.left, 'id', '') == 'archive_tag' and isinstance(n.value.right, ast.Constant)):
-            sufs.append(n.value.right.value)
-    archive_suffix = _one(sufs, 'archive tag suffix')
-    # plain archive tag: archive_tag = del_branch.version
-    plain = [n for n in ast.walk(delete) if isinstance(n, ast.Assign) and len(n.targets) == 1
-             and getattr(n.targets[0], 'id', '') == 'archive_tag' and isinstance(n.value, ast.Attribute)
-             and n.value.attr == 'version' and getattr(n.value.value, 'id', '') == 'del_branch']
-    if len(plain) != 1:
-        raise ValueError('archive_tag = del_branch.version not found')
-    # hotfix start tag: new_branch.version + '<suffix>'
-    starts = []
-    for n in ast.walk(create):
-        if (isinstance(n, ast.BinOp) and isinstance(n.op, ast.Add) and isinstance(n.left, ast.Attribute)
-                and n.left.attr == 'version' and isinstance(n.right, ast.Constant)):
-            starts.append(n.right.value)
-    start_suffix = _one(starts, 'hotfix start tag suffix')
-    stab_fmt = _one([s for s in _str_consts(delete) if s.startswith('stabilization/')], 'stabilization prefix format')
-    q_fmt = _one([s for s in _str_consts(delete) if s.startswith('q/')], 'queue name format')
-    dev_fmt = _one([s for s in _str_consts(create) if s.startswith('development/')], 'supporting development format')
-    for f, n in ((stab_fmt, 1), (q_fmt, 1), (dev_fmt, 2)):
-        if f.count('%s') != n or '%' in f.replace('%s', ''):
-            raise ValueError('unexpected format %r' % f)
-    if not stab_fmt.endswith('%s') or not q_fmt.endswith('%s'):
-        raise ValueError('format does not end with %s')
-    qpref = []
-    for fn in (rebuild, delq):
-        lits = []
-        for n in ast.walk(fn):
-            if (isinstance(n, ast.Call) and isinstance(n.func, ast.Attribute) and n.func.attr == 'startswith'
-                    and len(n.args) == 1 and isinstance(n.args[0], ast.Constant)):
-                lits.append(n.args[0].value)
-        qpref.append(_one(lits, 'queue prefix in ' + fn.name))
-    # create_branch: archive_tag + '<suffix>' for a hotfix branch (must be the tag delete_branch leaves)
-    csufs = []
-    for n in ast.walk(create):
-        if (isinstance(n, ast.BinOp) and isinstance(n.op, ast.Add) and getattr(n.left, 'id', '') == 'archive_tag'
-                and isinstance(n.right, ast.Constant) and isinstance(n.right.value, str)):
-            csufs.append(n.right.value)
-    create_suffix = _one(csufs, 'archive tag suffix looked for by create_branch')
-    # queue jobs: both check out queue_destination(repo, queue_branches[0])
-    qd = _funcs(trees['rebuild_queues'], ['queue_destination'])[0]
-    doc = ast.get_docstring(qd)
-    qd_formats = [c for c in _str_consts(qd) if c != doc]
-    for fn in (rebuild, delq):
-        calls = [n for n in ast.walk(fn) if isinstance(n, ast.Call) and getattr(n.func, 'id', '') == 'queue_destination']
-        if len(calls) != 1:
-            raise ValueError('%s does not call queue_destination exactly once' % fn.name)
-    # delete_branch: the stabilization test also compares major and minor as numbers
-    iso = _funcs(trees['delete_branch'], ['is_stabilization_of'])[0]
-    attrs = sorted(set(n.attr for n in ast.walk(iso) if isinstance(n, ast.Attribute) and n.attr in ('major', 'minor', 'micro')))
-    insts = [n.args[1].id for n in ast.walk(iso) if isinstance(n, ast.Call) and getattr(n.func, 'id', '') == 'isinstance'
-             and isinstance(n.args[1], ast.Name)]
-    if attrs != ['major', 'minor'] or insts != ['StabilizationBranch']:
-        raise ValueError('unexpected shape of is_stabilization_of: %r %r' % (attrs, insts))
-    stab_numeric = any(isinstance(n, ast.Call) and getattr(n.func, 'id', '') == 'is_stabilization_of'
-                       for n in ast.walk(delete))
-    # create_branch: names whose numbers are not written canonically are refused (when the helper is there)
-    canon = [f for f in trees['create_branch'].body if isinstance(f, ast.FunctionDef) and f.name == 'is_canonical_version']
-    requires_canonical = False
-    if canon:
-        src_c = ast.unparse(canon[0].body[-1])
-        if src_c != "return all((part == str(int(part)) for part in version.split('.')))":
-            raise ValueError('unexpected shape of is_canonical_version: ' + src_c)
-        calls = [n for n in ast.walk(create) if isinstance(n, ast.Call) and getattr(n.func, 'id', '') == 'is_canonical_version']
-        if len(calls) != 1 or ast.unparse(calls[0].args[0]) != 'new_branch.version':
-            raise ValueError('unexpected use of is_canonical_version')
-        requires_canonical = True
-    sites = raise_sites()
+    for name, ver, tags, gone, on_tip in nq['archive'] + qu['archive']:
+        if gone != [name] or len(tags) != 1 or on_tip != [True] or not tags[0].startswith(ver):
+            raise ValueError('delete-branch of %s: removed %r, new tags %r, on the old tip %r' % (name, gone, tags, on_tip))
+        suf = tags[0][len(ver):]
+        if name.startswith('hotfix/'):
+            sufs.append(suf)
+        elif suf != '':
+            raise ValueError('archive tag of %s is %r, not its version' % (name, tags[0]))
+    f['archive_suffix'] = _one(sufs, 'archive tag suffix of a hotfix branch')
+    if not f['archive_suffix']:
+        raise ValueError('hotfix branches are archived under their bare version')
+    # ---- start tag of a hotfix branch
+    f['start_suffix'] = _one([c for c, ok, _ in qu['hotfix_start'] if ok], 'hotfix start tag suffix')
+    # ---- archive tag create-branch looks for
+    if 'create_archive' not in qu:
+        raise ValueError('archive tag looked for by create-branch: probe not run')
+    ca = dict((c, v) for c, v in qu['create_archive'])
+    if any(v not in (True, False) for v in ca.values()) or ca.get('') is not True or not nq['create_archive_plain']:
+        raise ValueError('create-branch with an archive tag candidate: %r' % (qu['create_archive'],))
+    f['create_suffix'] = _one([c for c, v in ca.items() if v and c], 'archive tag suffix looked for by create-branch')
+    # ---- formats
+    head, numeric = _stab_guard(nq['stab_grid'])
+    f['stab_fmt'], f['stab_numeric'] = head + '%s', numeric
+    ver, names = qu['q_checkouts']
+    qn = [n for n in names if n.endswith(ver)]
+    if len(qn) == 1 and qn[0] != ver:
+        f['q_fmt'] = qn[0][:-len(ver)] + '%s'
+    else:
+        # the queue of the version is not looked for through a checkout: read the text
+        cands = []
+        for s in probe_c20.closure_strings('delete_branch'):
+            if s.startswith('q/'):
+                cands.append(s if s.endswith('%s') else (s[:-2] + '%s' if s.endswith('{}') else s + '%s'))
+        f['q_fmt'] = _one(cands, 'queue name format')
+    devs = []
+    for stab, (major, minor), status, dev in nq['supporting']:
+        tail = '%s.%s' % (major, minor)
+        if status != 'JobSuccess' or not dev or not dev.endswith(tail):
+            raise ValueError('create-branch of %s: %s, taken from %r' % (stab, status, dev))
+        devs.append(dev[:-len(tail)] + '%s.%s')
+    f['dev_fmt'] = _one(devs, 'supporting development format')
+    for fmt, n in ((f['stab_fmt'], 1), (f['q_fmt'], 1), (f['dev_fmt'], 2)):
+        if fmt.count('%s') != n or '%' in fmt.replace('%s', ''):
+            raise ValueError('unexpected format %r' % fmt)
+    # ---- queue jobs
+    f['qpref'] = []
+    scans = dict((k, (b, r, c, h)) for k, b, r, c, h in qu['queue_scan'])
+    for k in ('rebuild_queues', 'delete_queues'):
+        b, r, c, _ = scans[k]
+        f['qpref'].append(_queue_prefix(b, r, c, k))
+    fmts = {}
+    for k, q, dest, gone in de['queue_dest']:
+        if gone != [q]:
+            raise ValueError('%s with the single queue branch %s removed %r' % (k, q, gone))
+        nparts = len(q.split('/', 1)[1].split('.'))
+        slot = {4: 0, 3: 1}.get(nparts, 2)
+        fmts.setdefault(slot, set()).add(_destination_format(q, dest))
+    for k, (b, r, c, h) in scans.items():
+        # first queue branch of the scan world: a development queue
+        fmts.setdefault(2, set()).add(_destination_format(sorted(r)[0], h))
+    f['qd_formats'] = [_one(fmts.get(i, ()), 'destination format of the queue jobs (%s)' % w)
+                       for i, w in enumerate(('hotfix queue', 'stabilization queue', 'development queue'))]
+    # ---- canonical spellings
+    if any(v not in (True, False) for _, v in nq['canonical']):
+        raise ValueError('create-branch on non-canonical spellings: %r' % (nq['canonical'],))
+    f['requires_canonical'] = _one([v for _, v in nq['canonical']], 'answer to non-canonical spellings')
+    # ---- exception class of every exit
+    by_label = {}
+    for s in pr['sites']:
+        by_label.setdefault(s['label'], set()).add(s['cls'])
+    f['sites'] = []
+    for key, n in SITE_COUNT:
+        reached = set()
+        for s in pr['sites']:
+            if s['label'].startswith(key + ':'):
+                reached.add(tuple(s['frames'][-1]))
+        left = [r for r in probe_c20.raise_statements(key)
+                if not any(r[0] == fr[0] and r[1] <= fr[1] <= r[2] for fr in reached)]
+        classes = []
+        unreached = []
+        for i in range(n):
+            got = by_label.get('%s:%d' % (key, i))
+            if got:
+                classes.append(_one(got, 'exception class of %s:%d' % (key, i)))
+            elif i in UNREACHED.get(key, []):
+                classes.append(None)
+                unreached.append(i)
+            else:
+                raise ValueError('no probe ended at %s:%d' % (key, i))
+        if len(left) != len(unreached):
+            raise ValueError('%s: %d raise statement(s) no probe reached %r, %d expected' % (key, len(left), left, len(unreached)))
+        for i, r in zip(unreached, left):
+            classes[i] = r[3]
+        f['sites'].append((key, classes))
+    return f
+
+
+def api_patterns():
+    """The two regular expressions of the branch API, observed while the endpoint validates sentinel subjects."""
+    if core.REPO in _API:
+        return _API[core.REPO]
+    import bert_e.server.api.gwf.branches as api
+    from lib import reprobe
+    sb, sf = 'development/91.92', 'development/93.94'
+
+    def ask(mod):
+        with reprobe.observe() as ev:
+            mod.CreateBranch.validate_endpoint_data(sb, {'branch_from': sf})
+            mod.DeleteBranch.validate_endpoint_data(sb, None)
+        return ev
+    ev = ask(api)
+    if not reprobe.applied_to(ev, sb) or not reprobe.applied_to(ev, sf):
+        with reprobe.observe() as ev0:
+            mod = reprobe.fresh_module('bert_e/server/api/gwf/branches.py')
+        ev = ev0 + ask(mod)
+    b, bfl = reprobe.the_pattern(ev, sb, 'branch API (branch)')
+    bf, bffl = reprobe.the_pattern(ev, sf, 'branch API (branch_from)')
+    import re
+    plain = re.compile('x').flags
+    if not isinstance(b, str) or not isinstance(bf, str) or bfl != plain or bffl != plain:
+        raise ValueError('patterns of the branch API have an unexpected shape: %r %r / %r %r' % (b, bfl, bf, bffl))
+    _API[core.REPO] = (b, bf)
+    return b, bf
+
+
+_API = {}
+
+
+def gen_facts(ctx):
+    f = derive_facts(probes())
     from bert_e import exceptions as ex
     kinds = []
     for cls in ('NothingToDo', 'JobFailure', 'JobSuccess', 'NotMyJob'):
@@ -195,10 +310,12 @@ def gen_facts(ctx):
                       'template' if issubclass(c, ex.TemplateException) else
                       'internal' if issubclass(c, ex.InternalException) else 'other'))
     import bert_e.server.api.gwf.branches as api
-    from bert_e.jobs.create_branch import CreateBranchJob
-    from bert_e.jobs.delete_branch import DeleteBranchJob
-    if api.CreateBranch.job is not CreateBranchJob or api.DeleteBranch.job is not DeleteBranchJob:
+    from lib import probe_c20
+    jobs = probe_c20.job_classes()
+    if api.CreateBranch.job is not jobs['create_branch'] or api.DeleteBranch.job is not jobs['delete_branch']:
         raise ValueError('API endpoints are not bound to the expected job classes')
+    branch_re, branch_from_re = api_patterns()
+    stab_fmt, q_fmt = f['stab_fmt'], f['q_fmt']
     text = '''(* GENERATED on every run by harness/props/c20.py from %s - do not edit *)
 From Coq Require Import List String.
 Import ListNotations.
@@ -230,13 +347,13 @@ Definition outcome_kinds : list (string * string) := %s.
 (* TRIPWIRES - regex literals of the API grammar; no proof depends on them *)
 Definition api_branch_regexp : string := %s.
 Definition api_branch_from_regexp : string := %s.
-''' % (core.REPO, coq_str(archive_suffix), coq_str(start_suffix), coq_str(stab_fmt), coq_str(stab_fmt[:-2]),
-       coq_str(q_fmt), coq_str(q_fmt[:-2]), coq_str(dev_fmt), coq_str(create_suffix),
-       coq_list(map(coq_str, qd_formats)), 'true' if stab_numeric else 'false',
-       'true' if requires_canonical else 'false', coq_list(map(coq_str, qpref)),
-       coq_list('(%s, %s)' % (coq_str(k), coq_list(coq_str(c) for _, c in sites[k])) for k, _, _ in HANDLERS),
+''' % (core.REPO, coq_str(f['archive_suffix']), coq_str(f['start_suffix']), coq_str(stab_fmt), coq_str(stab_fmt[:-2]),
+       coq_str(q_fmt), coq_str(q_fmt[:-2]), coq_str(f['dev_fmt']), coq_str(f['create_suffix']),
+       coq_list(map(coq_str, f['qd_formats'])), 'true' if f['stab_numeric'] else 'false',
+       'true' if f['requires_canonical'] else 'false', coq_list(map(coq_str, f['qpref'])),
+       coq_list('(%s, %s)' % (coq_str(k), coq_list(coq_str(c) for c in cl)) for k, cl in f['sites']),
        coq_list('(%s, %s)' % (coq_str(a), coq_str(b)) for a, b in kinds),
-       coq_str(api.BRANCH_REGEXP), coq_str(api.BRANCH_FROM_REGEXP))
+       coq_str(branch_re), coq_str(branch_from_re))
     return {'Generated/Facts_C20.v': text}
 
 
@@ -422,16 +539,28 @@ def re_match_tag(t):
     return bool(re.match(r'^v?\d+\.\d+\.\d+(\.\d+)?$', t)) and '\n' not in t
 
 
-def api_accepts(name):
-    import re
+def api_accepts(name, kind=None):
+    """Does the branch API accept this name?  (the endpoint's own validation, whatever it is written with; without
+    a kind: the answer of both endpoints, 'differ' when they disagree)"""
     import bert_e.server.api.gwf.branches as api
-    return bool(re.match(api.BRANCH_REGEXP, name))
+    res = []
+    for k, ep in (('create_branch', api.CreateBranch), ('delete_branch', api.DeleteBranch)):
+        if kind in (None, k):
+            try:
+                ep.validate_endpoint_data(name, None)
+                res.append(True)
+            except ValueError:
+                res.append(False)
+    return res[0] if len(set(res)) == 1 else 'differ'
 
 
 def api_accepts_from(bf):
-    import re
     import bert_e.server.api.gwf.branches as api
-    return bool(re.match(api.BRANCH_FROM_REGEXP, bf))
+    try:
+        api.CreateBranch.validate_endpoint_data('development/1.0', {'branch_from': bf})
+    except ValueError:
+        return False
+    return True
 
 
 # ------------------------------------------------------------------------------------------ one world
@@ -520,34 +649,15 @@ def resolve_bf(world, refs, bf):
 
 def install_site_probe(world):
     """Remember the exception that ends BertE.process so that the raise site can be read from its traceback."""
-    cls = world.BertE
-    if getattr(cls, '_c20_probe', False):
-        return
-    orig = cls.process
-
-    def process(self, job):
-        try:
-            return orig(self, job)
-        except BaseException as e:
-            self._c20_exc = e
-            raise
-    cls.process = process
-    cls._c20_probe = True
+    from lib import probe_c20
+    probe_c20.install_site_probe(world)
 
 
-def site_of(exc, sites):
-    """(handler, ordinal) of the deepest frame of the traceback that is a raise statement of a handler."""
-    res = None
-    tb = exc.__traceback__ if exc is not None else None
-    while tb is not None:
-        fn = tb.tb_frame.f_code.co_filename.replace('\\', '/')
-        for key, rel, _ in HANDLERS:
-            if fn.endswith(rel):
-                lines = [ln for ln, _ in sites[key]]
-                if tb.tb_lineno in lines:
-                    res = '%s:%d' % (key, lines.index(tb.tb_lineno))
-        tb = tb.tb_next
-    return res
+def site_of(exc, table, kind, predicted=None):
+    """'<handler>:<ordinal>' (numbering of the model) of the exit of a real job: the traceback frames of the
+    exception inside the admin-job modules, looked up in the table of exits observed by the probes of GEN (never
+    message text, never the position of a statement in the file)."""
+    return table.site(kind, exc, predicted)
 
 
 KIND_JOB = {'create_branch': 'create', 'delete_branch': 'delete', 'rebuild_queues': 'rebuild',
@@ -671,8 +781,8 @@ def evaluate(world, model, wspec, req, sites, queue_order, out, fault=None):
     # ---- correspondence: outcome class, raise site, remote operations, refs/tags after, pending jobs
     d = mc.parse_dest(req.get('branch', '')) if 'branch' in req else None
     chained = bool(req['kind'] == 'create_branch' and uq and d and d[0] == 'dev' and 'PN:' in w[3])
-    isite = site_of(exc, sites)
     msite = model_site(req, ans, chained)
+    isite = site_of(exc, sites, req['kind'], msite)
     if req['kind'] == 'force_merge_queues' and mcls != 'NotMyJob':
         return
     if icls != mcls or (mcls == 'Crashed' and mdetail != idetail):
@@ -712,7 +822,7 @@ def evaluate(world, model, wspec, req, sites, queue_order, out, fault=None):
     # ---- monitors of the statement on the real system (inputs inside the quantifier only)
     inside = True
     if 'branch' in req:
-        inside = api_accepts(req['branch'])
+        inside = api_accepts(req['branch'], req['kind']) is True
         if req['kind'] == 'create_branch' and 'branch_from' in args:
             inside = inside and api_accepts_from(args['branch_from'])
     if inside:
@@ -756,7 +866,7 @@ def _worker(task):
         world = sysworld.World(wspec['cfg'])
         install_site_probe(world)
         run_setup(world, wspec['setup'])
-        sites = raise_sites()
+        sites = site_table()
         refs, tags = world.refs(), world.tags()
         queue_order = queue_order_of(world, refs)
         reqs = requests_for(refs, tags, wspec['cfg']['use_queue'])
@@ -823,7 +933,7 @@ def _replay_worker(task):
         queue_order = queue_order_of(world, refs)
         wspec = {'id': scen.get('world', 'replay'), 'cfg': scen['cfg'], 'setup': scen['setup'],
                  'layout': scen.get('world', 'replay').split('|')[0], 'pre': scen.get('pre')}
-        evaluate(world, model, wspec, scen['request'], raise_sites(), queue_order, out, fault=scen.get('fault'))
+        evaluate(world, model, wspec, scen['request'], site_table(), queue_order, out, fault=scen.get('fault'))
     except Exception:
         out['error'] = traceback.format_exc()[-2500:]
     finally:
@@ -883,8 +993,7 @@ def grammar_from(n):
 
 def grammar_probe(ctx):
     """The live API regexes against the grammar the quantifier is read with (tripwire: the literals)."""
-    import bert_e.server.api.gwf.branches as api
-    live = (api.BRANCH_REGEXP, api.BRANCH_FROM_REGEXP)
+    live = tuple(api_patterns())
     escalate = live != WRITTEN_AGAINST
     if escalate:
         ctx.notes.append('API regex literals differ from the ones this check was written against: %r' % (live,))
